@@ -162,7 +162,12 @@ class IO(object):
                         start_i = match.end(0)
                 else:
                     match = line_pattern.match(input, start_i)
-                    if match:
+                    if match and code is None and match.group(1) == b'':
+                        # Replies sent asynchronously (e.g. on timeout) are
+                        # preceded by an empty line.
+                        self.recv_buffer = input = input[match.end(0):]
+                        start_i = 0
+                    elif match:
                         self.recv_buffer = input[match.end(0):]
                         message_lines.append(match.group(1))
                         raise BadReply(b'\r\n'.join(message_lines))
